@@ -569,7 +569,9 @@ def has_err(t):
 
 
 WRAPS = ['%s', 'IFERROR(%s,777)', 'IFNA(%s,555)', 'ISERROR(%s)', 'ISERR(%s)', 'ISNA(%s)', 'ERROR.TYPE(%s)',
-         'IFERROR(ID(%s),777)', 'ISERROR(-(%s))', 'IFERROR((%s)=1,777)']
+         'IFERROR(ID(%s),777)', 'ISERROR(-(%s))', 'IFERROR((%s)=1,777)',
+         # fallbacks that are false-ish values: y is y, whatever it is
+         'IFERROR(%s,0)', 'IFNA(%s,FALSE)', 'IFERROR(%s,"")']
 
 
 def _dyn(text):
@@ -740,7 +742,14 @@ def oracle(c, impl_ans):
         for w in ('IFERROR(%s,777)', 'IFERROR(ID(%s),777)', 'IFERROR((%s)=1,777)'):
             if recs[w] != {'result': 777, 'error': None}:
                 return bad(w, 'IFERROR(x,y) = y when x is an error (%s)' % CODES[tag])
+        r0 = recs['IFERROR(%s,0)']
+        if r0['error'] is not None or type(r0['result']) is not int or r0['result'] != 0:
+            return bad('IFERROR(%s,0)', 'IFERROR(x,y) = y when x is an error: here y is the number 0')
+        if recs['IFERROR(%s,"")'] != {'result': '', 'error': None}:
+            return bad('IFERROR(%s,"")', 'IFERROR(x,y) = y when x is an error: here y is the empty text')
         if tag == 'na':
+            if recs['IFNA(%s,FALSE)']['error'] is not None or recs['IFNA(%s,FALSE)']['result'] is not False:
+                return bad('IFNA(%s,FALSE)', 'IFNA traps #N/A: here the fallback is FALSE')
             if recs['IFNA(%s,555)'] != {'result': 555, 'error': None}:
                 return bad('IFNA(%s,555)', 'IFNA traps #N/A')
         elif not is_err_rec(recs['IFNA(%s,555)'], tag):
@@ -759,7 +768,7 @@ def oracle(c, impl_ans):
     # no error anywhere
     if bare['error'] is not None:
         return bad('%s', 'no operand is an error')
-    for w in ('IFERROR(%s,777)', 'IFNA(%s,555)'):
+    for w in ('IFERROR(%s,777)', 'IFNA(%s,555)', 'IFERROR(%s,0)', 'IFNA(%s,FALSE)', 'IFERROR(%s,"")'):
         if recs[w]['error'] is not None or not same(recs[w]['result'], bare['result']):
             return bad(w, 'x is not an error, so the result is x = %r' % (bare['result'],))
     if isinstance(bare['result'], list):
